@@ -1,3 +1,6 @@
+pub mod hermes;
+pub mod det;
+pub mod hdr;
 pub mod bld;
 pub mod rw;
 pub mod name;
@@ -23,6 +26,9 @@ pub fn dispatch(t: &[&str]) -> String {
         "name.resolve" => name::run(t),
         "rw.run" | "rw.raw" | "rw.hermes" => rw::run(t),
         "bld.seq" | "smap.seq" => bld::run(t),
+        "hdr.chunked" | "hdr.splits" | "hdr.dataurl" | "hdr.b64enc" => hdr::run(t),
+        "det.locate" | "det.dataurl" | "det.decode" | "det.is_sm" | "det.ser" => det::run(t),
+        "hermes.scope" => hermes::run(t),
         _ => "bad-op".into(),
     }
 }
